@@ -97,34 +97,6 @@ mod verif_kani_atoms {
         }
     }
 
-    // inline atoms order by their text (byte order of UTF-8 = code-point order)
-    #[kani::proof]
-    #[kani::unwind(9)]
-    fn inline_atoms_order_by_text() {
-        let mut b1 = [0u8; 8];
-        let mut b2 = [0u8; 8];
-        let l1 = any_text(&mut b1, 6, false);
-        let l2 = any_text(&mut b2, 6, false);
-        kani::assume(l1 >= 1 && l2 >= 1);
-        let a1 = Atom::new_inlined(unsafe { std::str::from_utf8_unchecked(&b1[..l1]) });
-        let a2 = Atom::new_inlined(unsafe { std::str::from_utf8_unchecked(&b2[..l2]) });
-        let got = a1.cmp(&a2);
-        // reference: lexicographic comparison of the texts' bytes
-        let mut expect = std::cmp::Ordering::Equal;
-        let mut i = 0;
-        while i < 6 {
-            if expect == std::cmp::Ordering::Equal {
-                if i < l1 && i < l2 {
-                    if b1[i] < b2[i] { expect = std::cmp::Ordering::Less; } else if b1[i] > b2[i] { expect = std::cmp::Ordering::Greater; }
-                } else if i < l2 && i >= l1 { expect = std::cmp::Ordering::Less; }
-                else if i < l1 && i >= l2 { expect = std::cmp::Ordering::Greater; }
-            }
-            i += 1;
-        }
-        assert!(got == expect);
-        assert!((a1 == a2) == (expect == std::cmp::Ordering::Equal));
-    }
-
     #[kani::proof]
     #[kani::unwind(9)]
     fn char_inlined_agrees() {
@@ -155,6 +127,5 @@ GROUP = {
         "cell_build_with_round_trip": {},
         "static_index_agrees_with_runtime": {"bound": "texts of 0..=7 ASCII bytes (complete for the guard: lengths 0, 1..6, 7 and NUL placement)"},
         "char_inlined_agrees": {},
-        "inline_atoms_order_by_text": {},
     },
 }
